@@ -27,6 +27,7 @@ struct SimFile {
 
   void begin_op(const std::vector<IoFault> &f) { faults = f; op_cb = 0; }
   void heal() { active_kind = IOF_NONE; active_left = 0; faults.clear(); }
+  int faults_pending() const { int n = 0; for (auto &f : faults) if (f.kind != IOF_NONE && f.ord >= op_cb) n++; return n; }   // attached to this op but not reached yet
 
   int fault_now(bool is_read, bool is_seek, bool is_tell) {
     int ord = op_cb++;
